@@ -503,6 +503,11 @@ class SBV:
             raise OutsideModel("signed NumPy remainder")
         return SBV(z3.simplify(z3.If(b.e == 0, z3.BitVecVal(0, b.bits), z3.URem(a.e, b.e))), dt)
 
+    def __rpow__(self, base):
+        if not isinstance(base, builtins.int):
+            return NotImplemented
+        return base ** self.__index__()
+
     def __invert__(self):
         return SBV(z3.simplify(~self.e), self.dtype)
 
